@@ -421,6 +421,37 @@ def job_ragged(shape, delimiter=None, nvals=2):
                exc_policy='body', timeout_s=2400, max_decisions=100000)
 
 
+def job_ragged_options(comment, prefix, header):
+    """load_ragged_time_series with its comment / header options: a line  <prefix><t> <v>  where prefix is a concrete marker"""
+    def build(ctx):
+        return dict(t=piece(ctx, 't', 1, 'num'), v=piece(ctx, 'v', 2, 'num'))
+
+    def body(A, inp):
+        line = prefix + inp['t'] + " " + inp['v'] + "\n"
+        st, res = A.call(IO.load_ragged_time_series, as_file(A, [line]), comment=comment, header=header)
+        A.observe('status', st if st == 'ok' else type(res).__name__)
+        A.require(st == 'ok' or isinstance(res, ValueError), 'load_ragged_time_series[options]:only-ValueError', got=type(res).__name__)
+        is_comment = comment is not None and prefix.startswith(comment)
+        if is_comment:
+            A.require(st == 'ok' and len(res[0]) == 0 and len(res[1]) == 0, 'load_ragged_time_series[options]:line-starting-with-the-given-marker-vanishes')
+            return
+
+        def valid(tok):
+            if A.sym:
+                return bool(S.SymBool(z3.InRe(ST.lift(tok)[0], float_rx())))
+            try:
+                float(tok)
+                return True
+            except ValueError:
+                return False
+        if not (valid(prefix + inp['t']) and valid(inp['v'])):
+            A.require(st == 'exc', 'load_ragged_time_series[options]:unparsable-number=>ValueError')
+            return
+        A.require(st == 'ok' and len(res[0]) == 1 and len(res[1]) == 1 and len(res[1][0]) == 1, 'load_ragged_time_series[options]:row-is-read')
+    return Job('C20', 'ragged-options[comment=%r,line starts with %r,header=%s]' % (comment, prefix, header), build, body, extra_patches=PATCH_RAGGED,
+               funcs=['io.load_ragged_time_series'], lattice=0, exc_policy='body', timeout_s=900)
+
+
 # ---------------------------------------------------------------- (b) post-parse contract
 
 def job_postparse(loader, ncols, rows):
@@ -487,11 +518,16 @@ def job_tempo(rows):
         return dict(t1=[ctx.real('a%d' % r) for r in range(rows)], t2=[ctx.real('b%d' % r) for r in range(rows)], w=[ctx.real('w%d' % r) for r in range(rows)])
 
     def body(A, inp):
+        seen = {}
+
         def stub(filename, converters, delimiter=r"\s+", comment="#"):
+            seen['delimiter'], seen['comment'] = delimiter, comment
             return list(inp['t1']), list(inp['t2']), list(inp['w'])
         from .evals import stubbed
         with stubbed([(IO, 'load_delimited', stub)]):
             st, res = A.call(IO.load_tempo, 'dummy')
+            st2, _ = A.call(IO.load_tempo, 'dummy', delimiter=',', comment='%')
+            A.require(st2 == st and seen.get('delimiter') == ',' and seen.get('comment') == '%', 'io.load_tempo:delimiter-and-comment-reach-the-reader', got=dict(seen))
         A.observe('status', st if st == 'ok' else type(res).__name__)
         if rows != 1:
             A.require(st == 'exc' and isinstance(res, ValueError), 'io.load_tempo:multi-line-file=>ValueError')
@@ -511,11 +547,16 @@ def job_key(rows):
         return dict(scale=[ST.string_input(ctx, 's%d' % r, 2, lo=33) for r in range(rows)], mode=[ST.string_input(ctx, 'm%d' % r, 3, lo=33) for r in range(rows)])
 
     def body(A, inp):
+        seen = {}
+
         def stub(filename, converters, delimiter=r"\s+", comment="#"):
+            seen['delimiter'], seen['comment'] = delimiter, comment
             return list(inp['scale']), list(inp['mode'])
         from .evals import stubbed
         with stubbed([(IO, 'load_delimited', stub)]):
             st, res = A.call(IO.load_key, 'dummy')
+            st2, _ = A.call(IO.load_key, 'dummy', delimiter='\t', comment=None)
+            A.require(st2 == st and seen.get('delimiter') == '\t' and seen.get('comment') is None, 'io.load_key:delimiter-and-comment-reach-the-reader', got=dict(seen))
         A.observe('status', st if st == 'ok' else type(res).__name__)
         if rows != 1:
             A.require(st == 'exc' and isinstance(res, ValueError), 'io.load_key:multi-line-file=>ValueError')
@@ -624,6 +665,8 @@ def jobs(tier):
     if not q:
         js.append(job_ragged((1, 2, 2, 2, 1, 2, 1)))
         js.append(job_ragged((0, 2, 1, 2, 1, 1, 1), '\t'))
+    for (cm, pre, hd) in [('%', '%', False), ('%', '#', False), (None, '#', False), ('#', '#', True), ('#', '', True)]:
+        js.append(job_ragged_options(cm, pre, hd))
     for k in (1, 2, 3):
         js.append(job_column_count(k))
     js.append(job_two_lines())
